@@ -659,9 +659,47 @@ pub fn generate(seed: u64, tier: &str, sink: &mut Sink) {
     crate::p_c14::generate_siblings(seed, tier, sink);
     let mut rng = Rng::new(seed ^ 0xC16);
     let n = if tier == "thorough" { 60_000 } else { 4000 };
-    for case_i in 0..n {
+    // every history of three header operations (set / append of two values, v0 and v1) on one name, on a session
+    // and on a request, with a clone or a second request in the middle of one in two: "set replaces, append adds"
+    // for every state the field can be in — three values, equal values, a set of the value that is already the
+    // first one (seed C16-seed6, found by the random histories only by chance)
+    let mut fixed: Vec<Vec<Op>> = vec![];
+    for code in 0..64usize {
+        for on_session in [true, false] {
+            for name in ["x-a", "accept"] {
+                let mut ops = vec![Op::NewSession];
+                if !on_session {
+                    ops.push(Op::Create(Some(0)));
+                }
+                for k in 0..3 {
+                    let c = (code >> (2 * k)) & 3;
+                    let v = format!("v{}", c & 1).into_bytes();
+                    ops.push(match (on_session, c >> 1) {
+                        (true, 0) => Op::SessHeader(0, name.into(), v),
+                        (true, _) => Op::SessAppend(0, name.into(), v),
+                        (false, 0) => Op::BldHeader(0, name.into(), v),
+                        (false, _) => Op::BldAppend(0, name.into(), v),
+                    });
+                    if k == 1 && code % 2 == 1 {
+                        ops.push(if on_session { Op::Clone(0) } else { Op::Create(Some(0)) });
+                    }
+                }
+                if on_session {
+                    ops.push(Op::Create(Some(0)));
+                    ops.push(Op::ObsSession(0));
+                    if code % 2 == 1 {
+                        ops.push(Op::ObsSession(1));
+                    }
+                }
+                ops.push(Op::ObsBuilder(0));
+                ops.push(Op::Prep(0));
+                fixed.push(ops);
+            }
+        }
+    }
+    for case_i in 0..n + fixed.len() {
         let len = rng.range(3, 14) as usize;
-        let ops = normalise(gen_ops(&mut rng, len, true));
+        let ops = if case_i < fixed.len() { normalise(fixed[case_i].clone()) } else { normalise(gen_ops(&mut rng, len, true)) };
         let threaded = case_i % 4 == 3;
         let got: Vec<String> = if !threaded {
             let mut w = World { sessions: vec![], builders: vec![] };
